@@ -432,6 +432,7 @@ impl<F: Field + PrimeCharacteristicRing + Copy, const D: usize> AluAir<F, D> {
                     }
                     if contiguous
                         && Self::horner_ops_share_b_idx(preprocessed, plw, &chain[i..i + k])
+                        && Self::horner_inner_outs_off_bus(preprocessed, plw, &chain[i..i + k])
                     {
                         best_k = k;
                         break;
@@ -460,6 +461,20 @@ impl<F: Field + PrimeCharacteristicRing + Copy, const D: usize> AluAir<F, D> {
         fill_row(&mut schedule, &mut nc, &non_chain);
 
         Some(schedule)
+    }
+
+    /// Every op but the last has `mult_out == 0`, i.e. its output is created with no reader.
+    ///
+    /// A packed row only puts the last step's `out` on the `WitnessChecks` bus; packing a step
+    /// whose output is read elsewhere (or is itself a read of an already defined slot) would
+    /// drop that interaction and unbalance the bus.
+    fn horner_inner_outs_off_bus(preprocessed: &[F], plw: usize, op_indices: &[usize]) -> bool {
+        op_indices[..op_indices.len().saturating_sub(1)]
+            .iter()
+            .all(|&idx| {
+                let p: &AluPrepLaneCols<F> = preprocessed[idx * plw..(idx + 1) * plw].borrow();
+                p.mult_out == F::ZERO
+            })
     }
 
     /// All ops in `op_indices` use the same `b` witness index in preprocessed data.
